@@ -840,6 +840,40 @@ theorem delayCore_erase {s : SeqState} {d : Int} {n : ChName} {atRest : Bool}
       simp only [hv, validateChannel_erase hv] at h ⊢
       exact (SimR.bind (sim_delayWait n atRest) (sim_delayAdd d n)) s h
 
+theorem delayChecked_erase {s : SeqState} {d : Int} {n : ChName} {atRest : Bool}
+    (h : (delayChecked s d n atRest).err = none) :
+    delayChecked (erase s) d n atRest = eraseRaw (delayChecked s d n atRest) := by
+  unfold delayChecked at h ⊢
+  rw [erase_measured]
+  by_cases hg : (atRest && decide (d ≠ 0) && s.measured.isNone) = true
+  · rw [if_pos hg] at h
+    rw [if_pos hg, if_pos hg]
+    cases hv : s.validateChannel n false with
+    | error e =>
+      -- the unchecked call reports the error itself: the call failed, contradiction
+      rw [hv] at h
+      simp only at h
+      unfold delayCore at h
+      by_cases hm : s.measured.isSome = true
+      · rw [if_pos hm] at h; simp [fail] at h
+      · rw [if_neg hm, hv] at h; simp [fail] at h
+    | ok c =>
+      rw [hv] at h
+      simp only [validateChannel_erase hv] at h ⊢
+      by_cases hneg : d < 0
+      · rw [if_pos hneg] at h; simp [fail] at h
+      · rw [if_neg hneg] at h
+        rw [if_neg hneg, if_neg hneg]
+        cases hd : validateDuration c.cfg d.toNat with
+        | error e => rw [hd] at h; simp [fail] at h
+        | ok r =>
+          rw [hd] at h
+          simp only [eraseChan_cfg, validateDuration_erase hd] at h ⊢
+          exact delayCore_erase h
+  · rw [if_neg hg] at h
+    rw [if_neg hg, if_neg hg]
+    exact delayCore_erase h
+
 theorem sim_delayCore (d : Int) (n : ChName) (atRest : Bool) :
     SimR (fun s => delayCore s d n atRest) (fun s => delayCore s d n atRest) :=
   fun _ h => delayCore_erase h
@@ -1102,7 +1136,7 @@ theorem step_delay_erase {s : SeqState} {d : Int} {n : ChName} {atRest : Bool}
     stepRaw (erase s) (.delay d n atRest) = eraseRaw (stepRaw s (.delay d n atRest)) := by
   simp only [stepRaw] at h ⊢
   rw [store_err] at h
-  rw [delayCore_erase h, store_erase]
+  rw [delayChecked_erase h, store_erase]
 
 theorem step_phaseShift_erase {s : SeqState} {phi : Rat} {qs : List Nat} {b : Basis} :
     stepRaw (erase s) (.phaseShift phi qs b) = eraseRaw (stepRaw s (.phaseShift phi qs b)) := by
